@@ -52,6 +52,39 @@ Example C02_nonvacuous :
 Proof. repeat split; vm_compute; reflexivity. Qed.
 
 (* ---------------------------------------------------------------------------------------------------------------
+   Tie to the source of the event classifiers.  parseEvents picks the branch of an event with IsXID, IsRotate,
+   IsQuery, IsTableMap, Is{Write,Update,Delete}Rows, IsFormatDescription ...; Model.Streamer.decode compares the type
+   byte with the same constants.  The theorem below is about the Gallina text gotrans generates from those Go methods
+   on every run (gen/TransHeader.v): each of them is the comparison of the type byte with exactly its constant(s) -
+   so an event of any other type (XA prepare, a GTID, an unknown code) takes none of the committing branches. *)
+From GB Require Base.GoSem Model.Header Proofs.TransEquivHeader.
+From GBGen Require TransHeader.
+Theorem C02_tie_classifiers : forall ev,
+  GoSem.res_sim (TransHeader.binlogEvent_IsXID_g ev) (Header.is_type K_eXIDEvent ev) /\
+  GoSem.res_sim (TransHeader.binlogEvent_IsQuery_g ev) (Header.is_type K_eQueryEvent ev) /\
+  GoSem.res_sim (TransHeader.binlogEvent_IsRotate_g ev) (Header.is_type K_eRotateEvent ev) /\
+  GoSem.res_sim (TransHeader.binlogEvent_IsFormatDescription_g ev) (Header.is_type K_eFormatDescriptionEvent ev) /\
+  GoSem.res_sim (TransHeader.binlogEvent_IsTableMap_g ev) (Header.is_type K_eTableMapEvent ev) /\
+  GoSem.res_sim (TransHeader.binlogEvent_IsWriteRows_g ev)
+    (TransEquivHeader.is_type2 K_eWriteRowsEventV1 K_eWriteRowsEventV2 ev) /\
+  GoSem.res_sim (TransHeader.binlogEvent_IsUpdateRows_g ev)
+    (TransEquivHeader.is_type2 K_eUpdateRowsEventV1 K_eUpdateRowsEventV2 ev) /\
+  GoSem.res_sim (TransHeader.binlogEvent_IsDeleteRows_g ev)
+    (TransEquivHeader.is_type2 K_eDeleteRowsEventV1 K_eDeleteRowsEventV2 ev).
+Proof.
+  intro ev. repeat split.
+  - exact (TransEquivHeader.binlogEvent_IsXID_equiv ev).
+  - exact (TransEquivHeader.binlogEvent_IsQuery_equiv ev).
+  - exact (TransEquivHeader.binlogEvent_IsRotate_equiv ev).
+  - exact (TransEquivHeader.binlogEvent_IsFormatDescription_equiv ev).
+  - exact (TransEquivHeader.binlogEvent_IsTableMap_equiv ev).
+  - exact (TransEquivHeader.binlogEvent_IsWriteRows_equiv ev).
+  - exact (TransEquivHeader.binlogEvent_IsUpdateRows_equiv ev).
+  - exact (TransEquivHeader.binlogEvent_IsDeleteRows_equiv ev).
+Qed.
+Print Assumptions C02_tie_classifiers.
+
+(* ---------------------------------------------------------------------------------------------------------------
    Source pins.  The model functions used above are a hand-written reading of these Go functions (they have closures,
    channels, interfaces or maps, which the translator gotrans does not accept).  gosync regenerates their normalised
    text (logging calls and comments removed) into gen/Source.v on every run; it must equal the committed snapshot
